@@ -189,6 +189,86 @@ def run(report: Report, n):
             report.violation(f"too_big_{w}x{h}", dict(kind="property", function="raise_if_too_big_for_cbdt", size=[w, h], raised=raised))
 
 
+def run_fonts(report, n, rng):
+    """whole fonts built in process (cbdt, sbix): the image reached from the codepoint is the source's PNG, the
+    strike's ppem is round(upem * height / em), and the font's advance scaled to that ppem is the pixel advance"""
+    from harness import build
+    from harness.c04 import png_for
+
+    for i in range(n):
+        fmt = ["cbdt", "sbix"][i % 2]
+        upem = rng.choice([1000, 1024, 2048])
+        asc, desc = rng.choice([(0.8, -0.2), (0.95, -0.25), (0.75, -0.25)])
+        asc, desc = round(upem * asc), round(upem * desc)
+        res = rng.choice([32, 64, 96, 128])
+        prop = rng.random() < 0.5
+        width = 0 if prop else rng.choice([upem, asc - desc, round(upem * 1.275), round(upem * 0.8)])
+        over = dict(color_format=fmt, upem=upem, ascender=asc, descender=desc, width=width, bitmap_resolution=res)
+        srcs = []
+        for k in range(rng.randint(1, 4)):
+            w = res if not prop else max(1, round(res * rng.choice([1, 0.5, 0.75, 1.5, 1.9])))
+            cps = (0x1F600 + 2 * k,)
+            srcs.append((build.filename_for(cps), '<svg xmlns="http://www.w3.org/2000/svg" viewBox="0 0 10 10"/>', cps, png_for(k + i, w, res)))
+        case = dict(kind="e2e", format=fmt, config=over, images=[[len(s[3])] for s in srcs])
+        try:
+            font, cfg, picos, data = build.build_inprocess(over, srcs)
+        except Exception as ex:
+            if "does not fit in format" in str(ex) or "too big" in str(ex):
+                report.hist("fonts.outcome", "rejected (format limit)")
+                continue
+            case["error"] = f"{type(ex).__name__}: {ex}"
+            report_failure(report, f"font_build_{i}", case)
+            return
+        em = asc - desc
+        want_ppem = round(upem * res / em)
+        probs = []
+        cmap = font.getBestCmap()
+        from PIL import Image
+        import io as _io
+
+        for fn, text, cps, png in srcs:
+            g = cmap.get(cps[0])
+            if g is None:
+                probs.append(f"{fn}: codepoint not mapped")
+                continue
+            w_px = Image.open(_io.BytesIO(png)).size[0]
+            adv = font["hmtx"][g][0]
+            if fmt == "cbdt":
+                strikes = [(st, sd) for st, sd in zip(font["CBLC"].strikes, font["CBDT"].strikeData) if g in sd]
+                if len(strikes) != 1:
+                    probs.append(f"{g}: in {len(strikes)} strikes")
+                    continue
+                st_, sd = strikes[0]
+                ppem = st_.bitmapSizeTable.ppemX
+                if bytes(sd[g].imageData) != png:
+                    probs.append(f"{g}: CBDT image differs from the source PNG")
+                px_adv = sd[g].metrics.Advance
+            else:
+                stl = list(font["sbix"].strikes.values())
+                if len(stl) != 1 or g not in stl[0].glyphs or bytes(stl[0].glyphs[g].imageData) != png:
+                    probs.append(f"{g}: sbix image differs from the source PNG")
+                    continue
+                ppem = stl[0].ppem
+                px_adv = None
+            if ppem != want_ppem:
+                probs.append(f"{g}: strike ppem {ppem} != round(upem*height/em) = {want_ppem}")
+            scaled = adv * ppem / upem
+            # the advance the font declares, scaled to the strike, is the width the bitmap occupies (fixed width: the
+            # wider of the two), to within a pixel
+            want_px = max(w_px, width * res / em) if not prop else w_px
+            if abs(scaled - want_px) > 1.0:
+                probs.append(f"{g}: font advance {adv} = {scaled:.1f} px at ppem {ppem}, the bitmap box is {want_px:.1f} px wide")
+            if px_adv is not None and abs(px_adv - scaled) > 1.0:
+                probs.append(f"{g}: pixel advance {px_adv} != scaled font advance {scaled:.1f}")
+            report.count(("font", fmt, str(over), fn, len(png)), True)
+        report.hist("fonts.outcome", "problems" if probs else "ok")
+        report.hist("fonts.format", fmt + (" proportional" if prop else " fixed width"))
+        if probs:
+            case["problems"] = probs[:5]
+            report_failure(report, f"font_{i}", case)
+            return
+
+
 def main(argv):
     common.setup_env()
     tier = common.tier_from_args(argv)
@@ -202,6 +282,8 @@ def main(argv):
     st = proof_gate(report)
     if common.vo_ok("Corr/C14.v"):
         run(report, 600 if tier == "quick" else 12000)
+    if not report.violations:
+        run_fonts(report, 8 if tier == "quick" else 160, random.Random(report.seed + 14))
     if not st["proof_ok"] and not report.violations:
         report.violation("proof", dict(kind="proof", theorem="Props/C14.v", detail=report.notes.get("proof_failure")), found_input=False)
     report.open_obligations = [
